@@ -16,7 +16,7 @@
    arr_pre_post                                mask_pre, mask_post
    find_trough / find_tip                      find_trough / find_tip
    peak_to_trough_ratio (<= 1.5 test)          ratio_le_15  (cross-multiplied)
-   find_tip_trough  (swap branch)              swap_stage
+   find_tip_trough  (swap branch)              swap_row, swap_stage
    half_peak_point                             half_post, half_pre
    recovery_point                              recovery_idx
    compute_spike_features, one waveform        trace_features / features1
@@ -150,16 +150,17 @@ Definition stage1 (x : list Z) (pk : nat) : option st :=
 Definition swap_cond (q : st) : bool := (s_pv q >? 0) && ratio_le_15 (s_pv q) (s_tv q).
 
 (* the swap branch of find_tip_trough, for a selected row:
-     peak := trough;  arr_peak[i] := arr_peak_real[i]   (NOT re-inverted);
-     arr_peak_rows (a separate copy) is inverted by the new sign and used for the
-     new trough only; invert_sign_peak is re-derived from the new peak value *)
+     peak := trough;  arr_peak_rows = arr_peak_real[i] is inverted by the sign of
+     the new peak (invert_peak_waveform), stored back into arr_peak[i] (order of
+     the two statements as repaired in e0eff43) and used for the new trough;
+     invert_sign_peak is re-derived from the new peak value *)
 Definition swap_row (x : list Z) (q : st) : option st :=
   let pv' := s_tv q in
   let pk' := s_tq q in
   let rows := invert x pv' in
   let s' := inv_sign pv' in
   match find_trough rows pk' s' with
-  | Some (tq', tv') => Some (mkSt pk' pv' s' x tq' tv')
+  | Some (tq', tv') => Some (mkSt pk' pv' s' rows tq' tv')
   | None => None
   end.
 
